@@ -288,3 +288,8 @@ mod tests {
         }
     }
 }
+
+// Verification hook (compiled only by `cargo kani`, which sets `--cfg kani`).
+#[cfg(kani)]
+#[path = "/verif/harness/osu_gradual.rs"]
+pub(crate) mod verif_harness;
